@@ -20,7 +20,15 @@ def _node(n):
     return (t,)
 
 
-def lex_structure(s):
+_PRE = {
+    None: None,
+    "prepend-banner": lambda t: "B:" + t,
+    "append-footer": lambda t: t + "\n:F",
+    "expand-shorthand": lambda t: t.replace("@", "${x}"),
+}
+
+
+def lex_structure(s, pre=None):
     """real Lexer with Python parsing disabled (same stubs as the symbolic run, but real `re`)"""
     import types
     from mako import lexer, parsetree, exceptions
@@ -49,7 +57,7 @@ def lex_structure(s):
     lexer.parsetree = ns
     try:
         try:
-            t = lexer.Lexer(s).parse()
+            t = lexer.Lexer(s, preprocessor=_PRE[pre]).parse() if pre else lexer.Lexer(s).parse()
         except (exceptions.SyntaxException, exceptions.CompileException) as e:
             return ("exc", type(e).__name__, e.lineno, e.pos)
         return ("ok", flat(t.nodes))
